@@ -46,6 +46,7 @@ type c10Resp struct {
 	MidStall   bool   `json:"stall_in_the_middle_of_the_body,omitempty"`
 	APIVersion string `json:"api_version_header,omitempty"`
 	Location   string `json:"location_header,omitempty"` // redirects (TestC02Redirect only)
+	DelayMs    int    `json:"answer_after_ms,omitempty"` // a slow server: the answer comes after this pause (TestC10SlowServer only)
 }
 
 // served completely and as a JSON object?
@@ -191,6 +192,13 @@ func (s *c10Server) serve(cn net.Conn) {
 	if r.Stall {
 		wait()
 		return
+	}
+	if r.DelayMs > 0 {
+		select {
+		case <-sc.release:
+			return
+		case <-time.After(time.Duration(r.DelayMs) * time.Millisecond):
+		}
 	}
 	if r.CloseNow {
 		if t := tcpOf(cn); t != nil && r.Reset {
@@ -1117,5 +1125,28 @@ func TestC12Services(t *testing.T) {
 			return c
 		},
 		Check: c12SvcCheck,
+	})
+}
+
+// A slow but working service and a generous --timeout: the configured timeout is the limit, not some smaller built-in one.
+// (The built-in defaults are 5 s for elastic and 10 s for docker; the service answers later than that.) C10_SLOW selects the scan.
+func TestC10SlowServer(t *testing.T) {
+	scanKind := []string{"elastic", "docker"}[kit.EnvInt("C10_SLOW", 0)%2]
+	kit.Run(t, kit.Spec[c10Case]{
+		Prop: "C10",
+		Rule: "a service that serves its JSON object correctly but only 6..7 s (elastic) / 11..12 s (docker) after the request - later than the scans' built-in default timeouts - probed with a timeout of 20..30 s per request, http and https. Oracle: as TestC10Probes (the endpoint is reported, the record carries the probed target, the probe ends within the configured bound). non-trivial: always; distinct by case",
+		Gen: func(t *rapid.T) c10Case {
+			c := c10Case{Scan: scanKind, Proto: rapid.SampledFrom([]string{"http", "https"}).Draw(t, "proto"), TimeoutMs: rapid.IntRange(20000, 30000).Draw(t, "timeout-ms")}
+			c.IP = [4]byte{127, byte(rapid.IntRange(1, 250).Draw(t, "ip1")), byte(rapid.IntRange(0, 250).Draw(t, "ip2")), byte(rapid.IntRange(2, 250).Draw(t, "ip3"))}
+			obj := c10Resp{Status: 200, Framing: "length", Kind: "object", Body: `{"ID":"SLOW:1","Name":"slow","cluster_name":"c","version":{"number":"7.1"}}`}
+			c.Primary, c.Second, c.Ping = obj, obj, c10Resp{Status: 200, Framing: "length", Kind: "empty", APIVersion: "1.41"}
+			if scanKind == "elastic" {
+				c.Primary.DelayMs = rapid.IntRange(6000, 7000).Draw(t, "delay-ms")
+			} else {
+				c.Primary.DelayMs = rapid.IntRange(11000, 12000).Draw(t, "delay-ms")
+			}
+			return c
+		},
+		Check: c10Check,
 	})
 }
